@@ -22,9 +22,41 @@ import TsdateVerif.Proofs.DiscreteFinal
 import TsdateVerif.Proofs.DiscretePostExact
 import TsdateVerif.Proofs.DiscreteHomPass
 import TsdateVerif.Proofs.DiscreteNonneg
+import TsdateVerif.Proofs.DiscreteMutPrior
 
 namespace Tsdate.C10
 open Tsdate Tsdate.Discrete
+
+
+/-! ## Part 0 — which mutations enter the likelihood tables (`Likelihoods.get_mut_edges`) -/
+
+section
+variable {β : Type} [LE β] [LT β] [DecidableLE β] [DecidableLT β]
+
+/-- **`get_mut_edges` counts on every edge exactly the mutations that lie on it**: entry `i` is the number
+of mutations whose node is the child of edge `i` at the mutation's position (the model recomputes
+`mutation.edge` from the edge table). -/
+theorem mutEdges_spec (n : Nat) (es : List (SpanEdge β)) (muts : List (β × Nat)) (i : Nat) (hi : i < n) :
+    aget (mutEdges n es muts) i
+      = (muts.filter (fun m => decide (edgeOfMut es m.1 m.2 = some i))).length :=
+  mutEdges_get n es muts i hi
+
+/-- **A mutation above a root is counted nowhere.**  If no edge has the mutation's node as its child at
+the mutation's position (`mutation.edge == tskit.NULL`: every sample below carries the derived allele),
+the counts of all edges are what they are without that mutation — in particular it is *not* added to
+the last edge row (index `-1`). -/
+theorem root_mutation_counts_nowhere (n : Nat) (es : List (SpanEdge β)) (pos : β) (node : Nat)
+    (ms : List (β × Nat))
+    (h : ∀ e ∈ es, ¬ (e.c = node ∧ e.left ≤ pos ∧ pos < e.right)) :
+    mutEdges n es ((pos, node) :: ms) = mutEdges n es ms :=
+  mutEdges_skip_null n es (pos, node) ms (edgeOfMut_none es pos node h)
+
+end
+
+/-! Non-vacuity: tree ((0,1)3,2)4 on [0,10): two mutations above node 3, one above the root 4 (counted
+nowhere), one above sample 2. -/
+example : mutEdges 4 [⟨0, 0, 10, 3, 0⟩, ⟨1, 0, 10, 3, 1⟩, ⟨2, 0, 10, 4, 2⟩, ⟨3, 0, 10, 4, 3⟩]
+    [((1 : Nat), 3), (2, 4), (5, 3), (7, 2)] = #[0, 0, 1, 2] := by decide
 
 /-- **The packings are bijections** between `{(n,t) | t ≤ n < G}` and `[0, G(G+1)/2)`:
 `lowerIdx n t = n(n+1)/2 + t` (row-major lower triangle, used by `get_inside`) and
